@@ -270,6 +270,19 @@ def run_shard(shard, ctx):
                     if idx % 3 == 0:
                         case['dtype'] = 'int'
                     run_case(case, ctx)
+            if total <= 1000:
+                # every fold contributes, over the whole alphabet (fold descriptor kind alternates)
+                for ci in (0, 6):
+                    cfg = CFGS[ci]
+                    if cfg[0] == 'poisson_cv' and min(ALPHABETS[shard['a']]) < 0:
+                        continue
+                    cv = ('explicit', 'default')[(idx + ci // 6) % 2]
+                    for m in range(M if cv == 'explicit' else M * R):
+                        run_case(_base_case(K, M, R, P, cfg, cv=cv, clab=('str', 'int')[idx % 2],
+                                            flab=('int', 'str')[(idx // 2) % 2],
+                                            entry=('calc_rdm', 'direct')[(idx + m) % 2],
+                                            values={'v': 'alpha', 'a': shard['a'], 'i': idx},
+                                            probe='contrib', m=m), ctx)
     elif b == 'probes':
         K, M, R, P = shard['K'], shard['M'], shard['R'], shard['P']
         so = _structured_orders(K, M, R)
